@@ -25,8 +25,91 @@ pub fn exec(f: &[String]) -> Option<String> {
                 Err(_) => "PANIC".into(),
             })
         }
+        ("globr", 3) | ("router", 3) => {
+            let p = expand(&f[1])?;
+            let t = expand(&f[2])?;
+            let via_route = f[0] == "router";
+            Some(match guarded(|| if via_route { p.route_matches(&t) } else { wildcard_match(&p, &t) }) {
+                Ok(true) => "1".into(),
+                Ok(false) => "0".into(),
+                Err(_) => "PANIC".into(),
+            })
+        }
         _ => None,
     }
+}
+
+// ---------------------------------------------------------------------------------------------
+// long pairs: run-length encoded patterns and texts
+
+/// A text as run-length segments: `(count, unit)` = `count` copies of `unit`.
+type Rle = Vec<(usize, String)>;
+
+fn seg(n: usize, u: &str) -> (usize, String) {
+    (n, u.to_string())
+}
+
+/// Case-line form: segments joined by `,`; `R<count>*<hex>` for a repeated unit, plain `<hex>` for one copy. The Lean
+/// driver expands the same encoding (`Driver/C05.lean: expand`).
+fn enc(r: &Rle) -> String {
+    r.iter().filter(|(n, u)| *n > 0 && !u.is_empty()).map(|(n, u)| if *n == 1 { hex(u.as_bytes()) } else { format!("R{}*{}", n, hex(u.as_bytes())) }).collect::<Vec<_>>().join(",")
+}
+
+fn expand(field: &str) -> Option<String> {
+    let mut s = String::new();
+    for part in field.split(',') {
+        let (n, h) = match part.strip_prefix('R') {
+            Some(rest) => {
+                let (n, h) = rest.split_once('*')?;
+                (n.parse::<usize>().ok()?, h)
+            }
+            None => (1, part),
+        };
+        if h.len() % 2 != 0 || !h.bytes().all(|c| c.is_ascii_hexdigit()) {
+            return None;
+        }
+        let u = String::from_utf8(unhex(h)).ok()?;
+        s.reserve(n * u.len());
+        for _ in 0..n {
+            s.push_str(&u);
+        }
+    }
+    Some(s)
+}
+
+fn rle_chars(r: &Rle) -> usize {
+    r.iter().map(|(n, u)| n * u.chars().count()).sum()
+}
+
+fn bucket(n: usize) -> &'static str {
+    match n {
+        0..=99 => "<100",
+        100..=999 => "100..999",
+        1000..=9999 => "1e3..1e4",
+        10_000..=99_999 => "1e4..1e5",
+        100_000..=999_999 => "1e5..1e6",
+        1_000_000..=9_999_999 => "1e6..1e7",
+        _ => ">=1e7",
+    }
+}
+
+/// One long pair, asked through both entry points (`globr` = `wildcard_match`, `router` = `String::route_matches`).
+fn run_rle(out: &mut Out, family: &str, p: &Rle, t: &Rle) {
+    let (pe, te) = (enc(p), enc(t));
+    let stars: usize = p.iter().map(|(n, u)| n * u.matches('*').count()).sum();
+    let pchars = rle_chars(p);
+    let direct = exec(&["globr".into(), pe.clone(), te.clone()]).unwrap();
+    let via_route = exec(&["router".into(), pe.clone(), te.clone()]).unwrap();
+    if via_route != direct {
+        out.count("route_matches-differs-from-wildcard_match");
+    }
+    out.count(&format!("long:{}:result={}", family, direct));
+    out.count(&format!("long:text-chars={}", bucket(rle_chars(t))));
+    out.count(&format!("long:pattern-chars={}", bucket(pchars)));
+    out.count(&format!("long:stars={}", bucket(stars)));
+    let nontrivial = stars >= 1 && pchars > stars;
+    out.case(&["globr", &pe, &te], &direct, nontrivial);
+    out.case(&["router", &pe, &te], &via_route, nontrivial);
 }
 
 fn run(out: &mut Out, p: &str, t: &str) {
@@ -67,6 +150,233 @@ fn all_strings(alpha: &[char], max: usize) -> Vec<String> {
         layer = next;
     }
     res
+}
+
+/// Sizes and counts "well above small": around powers of two and typical limits, plus a few very large ones.
+const SWEEP_SMALL: &[usize] = &[100, 128, 255, 256, 257, 1000, 1024, 4096, 8192, 10_000, 65_535, 65_536, 65_537];
+const SWEEP_LARGE: &[usize] = &[100_000, 262_144, 1_000_000, (1 << 20) - 1, 1 << 20, (1 << 20) + 1, 2_000_000, (1 << 21) + 1];
+const SWEEP_HUGE: &[usize] = &[(1 << 22) + 1, 10_000_000, (1 << 24) + 1];
+/// units a long run is made of: one, two and four byte characters, periodic units, `*` as a text character
+const UNITS: &[&str] = &["a", "é", "😀", "ab", "/x", "*"];
+
+/// A character that differs from the last character of `s`.
+fn other_than_last(s: &str) -> &'static str {
+    match s.chars().last() {
+        Some('z') => "y",
+        _ => "z",
+    }
+}
+
+/// Long pairs (DESIGN 6.5): wildcards that must absorb almost all of a long text, long self-overlapping literals after
+/// a wildcard (cost = absorbed characters x partial match), hundreds to thousands of wildcards, long literal patterns,
+/// and random run-length compositions; every pair through `wildcard_match` and `String::route_matches`.
+fn long_pairs(out: &mut Out, thorough: bool, rng: &mut Rng) {
+    // 1. a wildcard absorbs a run of N units; literal context before / between / after; true pairs and near misses
+    let mut sizes: Vec<usize> = SWEEP_SMALL.iter().chain(SWEEP_LARGE.iter()).copied().collect();
+    if thorough {
+        sizes.extend_from_slice(SWEEP_HUGE);
+    }
+    let contexts: &[(&str, &str)] = &[("", ""), ("/files/", ""), ("", ".html"), ("/files/", ".html"), ("/é/", "/😀"), ("x", "x")];
+    for (si, &n) in sizes.iter().enumerate() {
+        for (ui, unit) in UNITS.iter().enumerate() {
+            // the largest sizes: two units per size (rotating), so that the quick tier stays quick
+            if n > 65_537 && (ui + si) % 3 != 0 && !(thorough && n <= (1 << 21) + 1) {
+                continue;
+            }
+            if n > (1 << 21) + 1 && (ui + si) % 6 != 0 {
+                continue;
+            }
+            let n_units = n / unit.chars().count().max(1);
+            for (ci, (pre, suf)) in contexts.iter().enumerate() {
+                // above 65537 characters: two of the six contexts per (size, unit), rotating
+                if n > 65_537 && (ci + si + ui) % 3 != 0 && !thorough {
+                    continue;
+                }
+                let star_pat: Rle = vec![seg(1, pre), seg(1, "*"), seg(1, suf)];
+                let text: Rle = vec![seg(1, pre), seg(n_units, unit), seg(1, suf)];
+                run_rle(out, "absorb", &star_pat, &text);
+                // adjacent wildcards, and two wildcards sharing the run around a literal that occurs in it
+                if (ci + si) % 2 == 1 || n <= 65_537 {
+                    run_rle(out, "absorb", &vec![seg(1, pre), seg(2, "*"), seg(1, suf)], &text);
+                    run_rle(out, "absorb", &vec![seg(1, pre), seg(1, "*"), seg(1, unit), seg(1, "*"), seg(1, suf)], &text);
+                }
+                // near misses: the text ends differently / starts differently / lacks the suffix's last character
+                if !suf.is_empty() {
+                    let mut cut: String = suf.to_string();
+                    cut.pop();
+                    run_rle(out, "absorb-miss", &star_pat, &vec![seg(1, pre), seg(n_units, unit), seg(1, &cut), seg(1, other_than_last(suf))]);
+                    run_rle(out, "absorb-miss", &star_pat, &vec![seg(1, pre), seg(n_units, unit), seg(1, &cut)]);
+                }
+                if !pre.is_empty() && n <= 65_537 {
+                    run_rle(out, "absorb-miss", &star_pat, &vec![seg(1, other_than_last(pre)), seg(1, pre), seg(n_units, unit), seg(1, suf)]);
+                }
+                // the run on both sides of a literal separator
+                if n <= 65_537 || ci % 3 == 0 {
+                    let p2: Rle = vec![seg(1, pre), seg(1, "*"), seg(1, "/-/"), seg(1, "*"), seg(1, suf)];
+                    run_rle(out, "absorb", &p2, &vec![seg(1, pre), seg(n_units / 2, unit), seg(1, "/-/"), seg(n_units - n_units / 2, unit), seg(1, suf)]);
+                    run_rle(out, "absorb-miss", &p2, &vec![seg(1, pre), seg(n_units / 2, unit), seg(1, "/-"), seg(n_units - n_units / 2, unit), seg(1, suf)]);
+                }
+            }
+        }
+    }
+    // 2. a self-overlapping literal of k units (then a different character) after a wildcard, against n units: every
+    //    one of the ~n attempts runs ~k characters into the literal before it fails; k x n from 10^4 to 10^8
+    let products: &[usize] = if thorough {
+        &[10_000, 65_537, 100_000, 1_000_000, (1 << 20) + 1, 3_000_000, 10_000_000, (1 << 24) + 1, 30_000_000, 100_000_000, 300_000_000]
+    } else {
+        &[10_000, 65_537, 100_000, 1_000_000, (1 << 20) + 1, 3_000_000, 10_000_000, (1 << 24) + 1]
+    };
+    let ks: &[usize] = &[1, 3, 15, 100, 255, 1023, 4096, 10_000, 100_000];
+    let ov_units: &[(&str, &str)] = &[("a", "b"), ("é", "ü"), ("ab", "ac"), ("😀", "😁")];
+    let mut variant = 0usize;
+    for (pi, &prod) in products.iter().enumerate() {
+        for (ki, &k) in ks.iter().enumerate() {
+            // n - k attempts of about k + 1 steps each
+            let n = prod / (k + 1) + k;
+            if n < 2 * k || n > 2_500_000 {
+                continue;
+            }
+            // quick tier: from 10^6 steps on every other k, from 10^7 on every fourth (rotating with the product)
+            if !thorough && ((prod >= 1_000_000 && (ki + pi) % 2 != 0) || (prod >= 10_000_000 && (ki + pi) % 4 != 0)) {
+                continue;
+            }
+            variant += 1;
+            for (ui, (u, end)) in ov_units.iter().enumerate() {
+                // the costly products: one unit each (rotating)
+                let costly = if thorough { prod > 30_000_000 } else { prod >= 1_000_000 };
+                if costly && (ui + variant) % ov_units.len() != 0 {
+                    continue;
+                }
+                let pre = if variant % 2 == 0 { "" } else { "/s/" };
+                let pat: Rle = vec![seg(1, pre), seg(1, "*"), seg(k, u), seg(1, end)];
+                run_rle(out, "overlap", &pat, &vec![seg(1, pre), seg(n, u), seg(1, end)]);
+                run_rle(out, "overlap-miss", &pat, &vec![seg(1, pre), seg(n, u)]);
+                if prod <= 3_000_000 || (thorough && prod <= 30_000_000) {
+                    run_rle(out, "overlap-miss", &pat, &vec![seg(1, pre), seg(n, u), seg(1, other_than_last(end))]);
+                    // a second wildcard after the literal, and the text going on after the match
+                    run_rle(out, "overlap", &vec![seg(1, pre), seg(1, "*"), seg(k, u), seg(1, end), seg(1, "*")], &vec![seg(1, pre), seg(n, u), seg(1, end), seg(7, u)]);
+                }
+            }
+        }
+    }
+    // 3. many wildcards
+    let mut star_counts: Vec<usize> = vec![17, 64, 100, 128, 255, 256, 257, 1000, 1024, 4096, 65_536];
+    if thorough {
+        star_counts.extend_from_slice(&[65_537, 100_000, 1_000_000]);
+    }
+    for &s in &star_counts {
+        for (x, y) in [("a", "b"), ("é", "😀"), ("/", "seg")] {
+            let star_x = format!("*{}", x);
+            let x_star = format!("{}*", x);
+            let yyx = format!("{}{}{}", y, y, x);
+            // every wildcard absorbs something / nothing; one item too few; one literal too many
+            run_rle(out, "stars", &vec![seg(s, &star_x)], &vec![seg(s, &yyx)]);
+            run_rle(out, "stars", &vec![seg(s, &star_x)], &vec![seg(s, x)]);
+            run_rle(out, "stars-miss", &vec![seg(s, &star_x)], &vec![seg(s - 1, x)]);
+            run_rle(out, "stars-miss", &vec![seg(s, &star_x)], &vec![seg(s, &yyx), seg(1, y)]);
+            run_rle(out, "stars", &vec![seg(s, &x_star)], &vec![seg(s, x)]);
+            run_rle(out, "stars", &vec![seg(s, &x_star)], &vec![seg(2 * s, x), seg(3, y)]);
+            run_rle(out, "stars-miss", &vec![seg(s, &x_star)], &vec![seg(s - 1, x)]);
+            run_rle(out, "stars-miss", &vec![seg(s, &x_star)], &vec![seg(1, y), seg(s, x)]);
+            // adjacent wildcards only, then a literal
+            run_rle(out, "stars", &vec![seg(s, "*")], &vec![seg(s / 2, y)]);
+            run_rle(out, "stars", &vec![seg(s, "*")], &vec![]);
+            run_rle(out, "stars", &vec![seg(s, "*"), seg(1, x)], &vec![seg(s, y), seg(1, x)]);
+            run_rle(out, "stars-miss", &vec![seg(s, "*"), seg(1, x)], &vec![seg(s, y)]);
+            run_rle(out, "stars", &vec![seg(1, x), seg(s, "*"), seg(1, x)], &vec![seg(2, x)]);
+            run_rle(out, "stars-miss", &vec![seg(1, x), seg(s, "*"), seg(1, x)], &vec![seg(1, x)]);
+            // many wildcards, and the last one has to absorb a long run before a self-overlapping literal
+            if s <= 4096 {
+                run_rle(out, "stars", &vec![seg(s, &star_x), seg(1, "*"), seg(15, y), seg(1, x)], &vec![seg(s, &yyx), seg(20_000, y), seg(1, x)]);
+                run_rle(out, "stars-miss", &vec![seg(s, &star_x), seg(1, "*"), seg(15, y), seg(1, x)], &vec![seg(s, &yyx), seg(20_000, y)]);
+            }
+        }
+    }
+    // 4. long literal patterns (no wildcard, or one at an end / in the middle)
+    for (si, &n) in sizes.iter().enumerate() {
+        for (ui, unit) in UNITS[..5].iter().enumerate() {
+            if n > 65_537 && (ui + si) % 5 != 0 {
+                continue;
+            }
+            let m = n / unit.chars().count();
+            let z = other_than_last(unit);
+            run_rle(out, "literal", &vec![seg(m, unit)], &vec![seg(m, unit)]);
+            run_rle(out, "literal-miss", &vec![seg(m, unit)], &vec![seg(m - 1, unit)]);
+            run_rle(out, "literal-miss", &vec![seg(m, unit)], &vec![seg(m + 1, unit)]);
+            run_rle(out, "literal-miss", &vec![seg(m, unit)], &vec![seg(m - 1, unit), seg(1, z)]);
+            run_rle(out, "literal-star", &vec![seg(m, unit), seg(1, "*"), seg(1, z), seg(m, unit)], &vec![seg(m + 2, unit), seg(1, z), seg(m, unit)]);
+            if n > 65_537 && !thorough {
+                continue;
+            }
+            run_rle(out, "literal-miss", &vec![seg(m, unit)], &vec![seg(m / 2, unit), seg(1, z), seg(m - m / 2 - 1, unit)]);
+            run_rle(out, "literal-star", &vec![seg(m, unit), seg(1, "*")], &vec![seg(m, unit)]);
+            run_rle(out, "literal-star", &vec![seg(m, unit), seg(1, "*")], &vec![seg(m + 5, unit)]);
+            run_rle(out, "literal-star-miss", &vec![seg(m, unit), seg(1, "*")], &vec![seg(m - 1, unit)]);
+            run_rle(out, "literal-star", &vec![seg(1, "*"), seg(1, z), seg(m, unit)], &vec![seg(3, unit), seg(1, z), seg(m, unit)]);
+            run_rle(out, "literal-star-miss", &vec![seg(1, "*"), seg(1, z), seg(m, unit)], &vec![seg(3, unit), seg(1, z), seg(m - 1, unit)]);
+            run_rle(out, "literal-star-miss", &vec![seg(m, unit), seg(1, "*"), seg(1, z), seg(m, unit)], &vec![seg(m + 2, unit), seg(1, z), seg(m, unit), seg(1, z)]);
+        }
+    }
+    // 5. random run-length compositions: the pattern is derived from the text segment by segment
+    let counts: &[usize] = &[0, 1, 1, 2, 3, 7, 16, 100, 255, 256, 257, 1000, 1024, 4096, 65_536, 100_000];
+    let pool: &[&str] = &["a", "b", "ab", "aab", "é", "😀", "/", "/a", "*", "a*", "é😀", ".", "%2F"];
+    let budget: usize = if thorough { 100_000_000 } else { 3_000_000 };
+    let n_random = if thorough { 60_000 } else { 3_000 };
+    let mut done = 0;
+    while done < n_random {
+        let nseg = rng.range(1, 5) as usize;
+        let mut t: Rle = Vec::new();
+        let mut p: Rle = Vec::new();
+        for _ in 0..nseg {
+            let u = *rng.pick(pool);
+            let c = *rng.pick(counts);
+            t.push(seg(c, u));
+            match rng.below(8) {
+                0 | 1 => p.push(seg(c, u)),
+                2 | 3 => p.push(seg(1, "*")),
+                4 => {
+                    // a wildcard followed by part of the run it stands in front of (self-overlap)
+                    p.push(seg(1, "*"));
+                    p.push(seg(*rng.pick(&[1, 2, 15, 100, c / 2 + 1, c]), u));
+                }
+                5 => {
+                    p.push(seg(c / 2, u));
+                    p.push(seg(1, "*"));
+                }
+                6 => p.push(seg(if rng.chance(1, 2) { c + 1 } else { c.saturating_sub(1) }, u)),
+                _ => {
+                    p.push(seg(1, "*"));
+                    p.push(seg(c, u));
+                    p.push(seg(rng.below(3) as usize, "*"));
+                }
+            }
+        }
+        if rng.chance(1, 4) {
+            p.push(seg(1, *rng.pick(pool)));
+        }
+        if rng.chance(1, 4) {
+            t.push(seg(1, *rng.pick(pool)));
+        }
+        // upper bound of the matcher's work: text characters x (longest literal run after a wildcard + 1)
+        let mut longest = 0usize;
+        let mut cur = 0usize;
+        let mut seen_star = false;
+        for (n, u) in &p {
+            if u.contains('*') && *n > 0 {
+                seen_star = true;
+                longest = longest.max(cur);
+                cur = 0;
+            } else if seen_star {
+                cur += n * u.chars().count();
+            }
+        }
+        longest = longest.max(cur);
+        if rle_chars(&t).saturating_mul(longest + 1) > budget || rle_chars(&p) > 400_000 {
+            continue;
+        }
+        run_rle(out, "random", &p, &t);
+        done += 1;
+    }
 }
 
 pub fn gen(out: &mut Out, thorough: bool, seed: u64) {
@@ -119,8 +429,9 @@ pub fn gen(out: &mut Out, thorough: bool, seed: u64) {
             }
         }
     }
-    // random long pairs biased towards self-overlapping literals
     let mut rng = Rng::new(seed);
+    long_pairs(out, thorough, &mut rng);
+    // random pairs biased towards self-overlapping literals
     let n = if thorough { 3_000_000 } else { 100_000 };
     let alph: [char; 4] = ['a', 'b', 'é', '/'];
     for _ in 0..n {
